@@ -68,3 +68,53 @@ async fn keyed_shard_answers_like_the_original_next_to_an_unkeyed_shard() {
         }
     }
 }
+
+/// Shards under two different (previously unseen) keys plus an unkeyed one, all found in one directory scan: every shard's
+/// chunks must be found through the manager.
+#[tokio::test]
+async fn shards_under_several_keys_registered_together_all_answer() {
+    let src = tempfile::tempdir().unwrap();
+    let dir = tempfile::tempdir().unwrap();
+    let mut expect = Vec::new();
+    for (n, key) in [(1u64, Some(rng_hash(31))), (2, Some(rng_hash(32))), (3, None), (4, Some(rng_hash(33)))] {
+        let chunks = [MerkleHash::from([50 + n, 1, 2, 3]), MerkleHash::from([60 + n, 1, 2, 3])];
+        let cas = MerkleHash::from([70 + n, 9, 9, 9]);
+        match key {
+            Some(k) => {
+                let s = write_shard(src.path(), vec![cas_block(cas, &chunks)]);
+                s.export_as_keyed_shard(dir.path(), k, Duration::from_secs(3600), false, true, true).unwrap();
+            },
+            None => {
+                write_shard(dir.path(), vec![cas_block(cas, &chunks)]);
+            },
+        }
+        expect.push((chunks, cas));
+    }
+    let mgr = ShardFileManager::new_in_session_directory(dir.path()).await.unwrap();
+    for (chunks, cas) in expect {
+        let r = mgr.chunk_hash_dedup_query(&chunks).await.unwrap();
+        assert_eq!(r.map(|(n, e)| (n, e.cas_hash)), Some((2, cas)), "C18 violated: chunks of xorb {cas:?} are not found although its shard is in the directory (several keys registered together)");
+    }
+}
+
+/// A shard whose xorb section has more than 65535 entries: chunks of xorbs stored past that position must still be found
+/// through the manager's chunk index (only a chunk's offset inside its xorb is limited to 16 bits, not the xorb's position).
+#[tokio::test]
+async fn chunks_of_xorbs_late_in_a_large_shard_are_found() {
+    let dir = tempfile::tempdir().unwrap();
+    let mut mem = MDBInMemoryShard::default();
+    let n_xorbs = 1100u64;
+    let per = 64u64;
+    for x in 0..n_xorbs {
+        let chunks: Vec<MerkleHash> = (0..per).map(|k| MerkleHash::from([x * 1000 + k + 1, 77, x, k])).collect();
+        // xorb hashes ascending so that section order follows x
+        mem.add_cas_block(cas_block(MerkleHash::from([x + 1, 0, 0, 1]), &chunks)).unwrap();
+    }
+    mem.write_to_directory(dir.path()).unwrap();
+    let mgr = ShardFileManager::new_in_session_directory(dir.path()).await.unwrap();
+    for x in [0u64, 500, 1007, 1008, 1050, 1099] {
+        let q: Vec<MerkleHash> = (0..3).map(|k| MerkleHash::from([x * 1000 + k + 1, 77, x, k])).collect();
+        let r = mgr.chunk_hash_dedup_query(&q).await.unwrap();
+        assert_eq!(r.map(|(n, e)| (n, e.cas_hash)), Some((3, MerkleHash::from([x + 1, 0, 0, 1]))), "C18 violated: chunks of xorb number {x} (section entry {}) of a large shard are not found", x * (per + 1));
+    }
+}
